@@ -845,7 +845,13 @@ class Inliner:
                 return
             if n is st:
                 state['found'] = True
-                # reads inside the call statement itself happen before the helper runs; reads in enclosing loops are "after"
+                # the helper's statements are placed before the call statement: a read anywhere in that statement sees what they
+                # assigned (`return (x, helper(a))`); reads in enclosing loops are "after" as well
+                hdr = [c for f, c in ast.iter_fields(st) if f not in ('body', 'orelse', 'finalbody', 'handlers')]
+                for c in hdr:
+                    for c1 in (c if isinstance(c, list) else [c]):
+                        if isinstance(c1, ast.AST) and any(isinstance(x, ast.Name) and x.id == name and isinstance(x.ctx, ast.Load) for x in ast.walk(c1)):
+                            state['live'] = True
                 for lp in in_loops:
                     for x in ast.walk(lp):
                         if isinstance(x, ast.Name) and x.id == name and isinstance(x.ctx, ast.Load) and not _inside_node(x, st):
